@@ -1,26 +1,18 @@
-"""Per-property configuration of the checks (what to translate, which Coq
-targets, which harness binary, what is trusted)."""
-
-COMMON_TB = [
-    "Coq 8.16.1 kernel (coqc, full .vo build via coq_makefile; vm_compute used for finite facts and case evaluation; no native_compute)",
-    "no axioms declared; Print Assumptions of every property theorem is audited on every run",
-    "tools/vcheck.py (driver, audit) and the Rust harness (prints what it observes)",
-]
-
-PROPS = {
-    "C09": {
-        "coq_targets": ["Props/C09.vo"],
-        "harness": "hx-freezer",
-        "translators": [],
-        "level_text": "Proof (Coq): for every history of appends, truncations, re-opens and crash cuts (any index length keeping the sentinel x any length of the newest data file) the model of freezer_files.rs re-opens without error and holds a byte-exact prefix of the appended items, dropping only index entries whose data did not fully survive (c09_refines_list, c09_repair_prefix, c09_repair_keeps_written, c09_clean_answers); the 12-byte index codec round-trips. The model is tied to the code on every run by running the real FreezerFiles and the model on the same generated histories and on exhaustive cut sweeps of small disks; the property predicate is also evaluated directly on the implementation (compression on and off).",
-        "level_note": "Trusted: Coq kernel; hand-written model Freezer/Files.v (correspondence-checked each run, not verified against the Rust text); file-system semantics of set_len/seek/read; snappy treated as an opaque lossless codec; fsync durability and the fs2 lock are outside the model. The theorems are about the repaired loop (fix: commit eb5b786 in /repo); build_old_refuted keeps the pre-fix loop's witness.",
-        "trusted_base": COMMON_TB + [
-            "hand-written model coq/Freezer/Files.v of freezer/src/freezer_files.rs, tied by the correspondence check (hx-freezer) on every run",
-            "modelled, not verified: the file system (set_len/seek/read_exact semantics), snappy (compression stream is checked against the abstract list only), fsync durability",
-        ],
-        "assumptions": [
-            "crash relation = the property's: index file cut to any byte length that keeps the sentinel entry, newest data file cut to any length, earlier data files intact",
-            "a data file that does not exist reads as empty (open_append creates it)",
-        ],
-    },
-}
+"""Per-property configuration of the checks: one file tools/registry.d/Cxx.py
+per property, each defining SPEC (what to translate, which Coq targets, which
+harness binary, what is trusted)."""
+import glob, importlib.util, os, sys
+_D = os.path.join(os.path.dirname(os.path.abspath(__file__)), "registry.d")
+sys.path.insert(0, os.path.dirname(os.path.abspath(__file__)))
+from registry_common import COMMON_TB  # noqa
+PROPS = {}
+HOOK_COMMITS = []
+for _f in sorted(glob.glob(os.path.join(_D, "C*.py"))):
+    _n = os.path.basename(_f)[:-3]
+    _s = importlib.util.spec_from_file_location("registry_d_" + _n, _f)
+    _m = importlib.util.module_from_spec(_s)
+    _s.loader.exec_module(_m)
+    PROPS[_n] = _m.SPEC
+_h = os.path.join(_D, "hook_commits.txt")
+if os.path.exists(_h):
+    HOOK_COMMITS = [l.strip() for l in open(_h) if l.strip()]
